@@ -11,7 +11,7 @@ python3 - "$dst" "$prop" "$needs" "$caught" "$id" <<'PY'
 import json,sys
 dst,prop,needs,caught,wid=sys.argv[1:6]
 json.dump({"breaks_property":prop,"needs_to_manifest":needs,"origin":"fresh sub-agent given only the property text and a scratch worktree (/tmp/mut/%s)"%wid,
- "confirmed":["patch applies to /repo HEAD and builds","baseline suite passes with the patch (bin/baseline.sh via bin/trymutant.sh)","demonstration fails with the patch and passes without it (bin/confirm_seeded.sh, clean worktree, git apply / git apply -R)"],
- "checks_run":"bin/trymutant.sh <patch> <checks> (quick tier)","detected_by":caught.split(",") if caught else []},open(dst+"/meta.json","w"),indent=1,ensure_ascii=False)
+ "confirmed":["patch applies to /repo HEAD and builds","baseline suite passes with the patch (bin/baseline.sh via bin/trymutant.sh or trymutant_wt.sh)","demonstration fails with the patch and passes without it (bin/confirm_seeded.sh, clean worktree, git apply / git apply -R)"],
+ "checks_run":"bin/trymutant.sh <patch> <checks> or bin/trymutant_wt.sh <worktree> <checks> (quick tier)","detected_by":caught.split(",") if caught else []},open(dst+"/meta.json","w"),indent=1,ensure_ascii=False)
 PY
 echo kept $name
